@@ -76,6 +76,40 @@ func everyPathPasses(from, to, via ssa.Instruction) bool {
 	return !reachCut(fb, map[*ssa.BasicBlock]bool{vb: true}, nil)[tb]
 }
 
+// mustPassBlocks: the blocks of fn that hold a call of target, or of an in-module function every path of which (entry to
+// return) passes such a call (three levels deep). A callee that merely can reach target does not count.
+func mustPassBlocks(fn, target *ssa.Function, depth int) map[*ssa.BasicBlock]bool {
+	out := map[*ssa.BasicBlock]bool{}
+	eachInstr(fn, func(b *ssa.BasicBlock, _ int, in ssa.Instruction) {
+		call, ok := in.(ssa.CallInstruction)
+		if !ok {
+			return
+		}
+		g := staticCallee(call.Common())
+		if g == nil {
+			return
+		}
+		if g == target {
+			out[b] = true
+			return
+		}
+		if depth >= 3 || g == fn || !inModule(g) || len(g.Blocks) == 0 {
+			return
+		}
+		if _, isGo := in.(*ssa.Go); isGo {
+			return
+		}
+		if _, isDefer := in.(*ssa.Defer); isDefer {
+			return
+		}
+		stops := mustPassBlocks(g, target, depth+1)
+		if len(stops) > 0 && returnsIn(reachCut(g.Blocks[0], stops, nil)) == nil {
+			out[b] = true
+		}
+	})
+	return out
+}
+
 // ---- C12.VERDICT ----
 
 // The table of C12.TBL only takes effect through a chain of four links, each of which is a few lines that look harmless
